@@ -10,7 +10,7 @@ open Mkts.Store Mkts.Time Mkts.Bytes
 /-! ### the predicate compiler -/
 
 /-- merging a conjunct's pending predicate into a fresh `StaticPredicate` reproduces it -/
-theorem merge_empty_pending (c : Conj) : ({} : SP).merge c.pending = c.pending := by
+theorem merge_empty_pending (c : Conj) : ({ epoch := c.col == "Epoch" } : SP).merge c.pending = c.pending := by
   cases c with
   | cmp col op v => cases op <;> rfl
   | between col lo hi => rfl
@@ -28,7 +28,7 @@ theorem get_eq_none_iff (g : Group) (c : String) : g.get c = none ↔ ∀ e ∈ 
       simp [h]
 
 theorem mergeCol_absent (g : Group) (c : String) (sp : SP) (h : ∀ e ∈ g, e.1 ≠ c) :
-    g.mergeCol c sp = g ++ [(c, ({} : SP).merge sp)] := by
+    g.mergeCol c sp = g ++ [(c, ({ epoch := c == "Epoch" } : SP).merge sp)] := by
   induction g with
   | nil => rfl
   | cons hd tl ih =>
@@ -94,56 +94,13 @@ theorem zipWith_and_map {α} (l : List α) (p q : α → Bool) :
   | nil => rfl
   | cons a t ih => simp [ih]
 
-/-- a bound is *stable* when re-applying `convertUnitToNanosec` does not change it any more
-    (true for 0 and for every literal above 32 — nanosecond literals in particular) -/
-def Stable (b : Int) : Prop := convUnit (convUnit b) = convUnit b
-
-theorem epochLoop_stable (op : CmpOp) (b : Int) (secs : List Int) (h : Stable b) :
-    epochLoop op b secs = secs.map (fun s => keepInt op (convUnit s) (convUnit b)) := by
-  induction secs generalizing b with
-  | nil => rfl
-  | cons s rest ih =>
-    simp only [epochLoop, List.map_cons]
-    have hs : Stable (convUnit b) := congrArg convUnit h
-    rw [ih (convUnit b) hs, h]
-
-/-- every Epoch literal of the predicate is stable -/
-def SP.EpochStable (sp : SP) : Prop :=
-  (∀ l, sp.equal = some l → Stable l.asI64) ∧ (∀ l, sp.min = some l → Stable l.asI64) ∧
-  (∀ l, sp.max = some l → Stable l.asI64)
-
-/-- one Epoch test of one row, for a stable literal -/
-def optKeep (op : CmpOp) (l : Option Lit) (sec : Int) : Bool :=
-  match l with
-  | none => true
-  | some l => keepInt op (convUnit sec) (convUnit l.asI64)
-
-theorem optLoop_stable (op : CmpOp) (l : Option Lit) (secs : List Int)
-    (h : ∀ x, l = some x → Stable x.asI64) : optLoop op l secs = secs.map (optKeep op l) := by
-  cases l with
-  | none => rfl
-  | some x => exact epochLoop_stable op x.asI64 secs (h x rfl)
-
-/-- the Epoch tests of one row (all three loops), for stable literals -/
-def keepEpoch (sp : SP) (sec : Int) : Bool :=
-  optKeep .eq sp.equal sec &&
-  (optKeep (if sp.inclMin then .ge else .gt) sp.min sec && optKeep (if sp.inclMax then .le else .lt) sp.max sec)
-
-theorem epochKeep_stable (sp : SP) (secs : List Int) (h : sp.EpochStable) :
-    epochKeep sp secs = secs.map (keepEpoch sp) := by
-  obtain ⟨he, hmin, hmax⟩ := h
-  unfold epochKeep keepEpoch
-  rw [optLoop_stable _ _ _ he, optLoop_stable _ _ _ hmin, optLoop_stable _ _ _ hmax,
-    zipWith_and_map, zipWith_and_map]
-
 /-- keep flag of a whole row -/
 def keepRow (cols : List ColDef) (g : Group) (r : Row) : Bool :=
   (match g.get "Epoch" with | none => true | some sp => keepEpoch sp r.sec) && keepCols cols g r.payload
 
-/-- the post-filter (three Epoch loops with their mutable bounds, the per-type switch, the bitmap
-    and `RestrictViaBitmap`) is a plain `filter` as soon as the Epoch literals are stable -/
-theorem postFilter_eq_filter (cols : List ColDef) (g : Group) (rows : List Row)
-    (h : ∀ sp, g.get "Epoch" = some sp → sp.EpochStable) :
+/-- the post-filter (Epoch tests, the per-type switch, the bitmap and `RestrictViaBitmap`) is a
+    plain `filter` by a per-row predicate -/
+theorem postFilter_eq_filter (cols : List ColDef) (g : Group) (rows : List Row) :
     postFilter cols g rows = rows.filter (keepRow cols g) := by
   unfold postFilter keepRow
   cases hg : g.get "Epoch" with
@@ -152,7 +109,7 @@ theorem postFilter_eq_filter (cols : List ColDef) (g : Group) (rows : List Row)
     rw [zipWith_and_map, restrict_map]
   | some sp =>
     simp only
-    rw [epochKeep_stable sp _ (h sp hg), List.map_map, zipWith_and_map, restrict_map]
+    rw [epochKeep, List.map_map, zipWith_and_map, restrict_map]
     rfl
 
 end Mkts.Sql
